@@ -53,7 +53,7 @@ const (
 	OpJoin  // enabled iff thread obj finished
 )
 
-var opNames = []string{"start", "yield", "lock", "unlock", "rlock", "runlock", "send", "recv", "close", "select", "wgwait", "sleep", "cond", "quiet", "timed", "join"}
+var opNames = []string{"start", "yield", "lock", "unlock", "rlock", "runlock", "trylock", "tryrlock", "send", "recv", "close", "select", "wgwait", "sleep", "cond", "quiet", "timed", "join"}
 
 const (
 	stFree = iota
